@@ -15,6 +15,8 @@ CONFIGS = [
     {"name": "ast-ja-default-opaque-ids", "parser": {"b": "ast", "g": 0}, "matcher": {"c": "tm", "d": "ja"}, "src": "str", "flavour": "opaque"},
     {"name": "ast-en-path-shortreads", "parser": {"b": "ast", "g": 0}, "matcher": {"c": "tm", "d": "en"}, "src": "path", "flavour": "inc"},
     # two default-constructed parsers (private generators, so AST ids of different documents coincide) feeding ONE long-lived compiler
+    # the history migrates between threads: every operation runs on a thread of its own (state kept per thread is lost or stale)
+    {"name": "ast-shared-en-scanner-thread-per-operation", "parser": {"b": "ast", "g": 0}, "matcher": {"c": "tm", "d": "en"}, "src": "scanner", "flavour": "inc", "migrate": "all"},
     {"name": "two-default-parsers-one-compiler", "parser": {"b": "astd"}, "matcher": {"c": "tm", "d": "en"}, "src": "scanner", "flavour": "inc", "alt": True},
 ]
 MODES = [(False, False), (True, True), (True, False), (False, True)]
@@ -54,7 +56,7 @@ def chain_spec(ci, mi, docs, labels):
         ops.append({"op": "compile", "c": 0, "of": 0, "uri": "first.feature", "attach": "set"})
         ops.append({"op": "compile", "c": 0, "of": n - 1, "uri": "last.feature", "attach": "json"})
     return {"scenario": "reuse-enum", "prop": "C15", "labels": labels, "config": cfg["name"], "oracles": ORACLES,
-            "cfg": {"flavour": cfg["flavour"], "salt": 0x5EED, "chunk_max": 3 if cfg["src"] == "path" else 0, "fs_seed": 7},
+            "cfg": {"flavour": cfg["flavour"], "salt": 0x5EED, "chunk_max": 3 if cfg["src"] == "path" else 0, "fs_seed": 7, **({"migrate": cfg["migrate"]} if cfg.get("migrate") else {})},
             "gens": 1, "fs": {"files": files}, "tasks": [task]}
 
 
@@ -196,6 +198,8 @@ def gen_reuse(rng):
     task, labels = _gen_task(rng, 0, ngens, rng.randint(2, 12), files, "t0")
     cfg = _cfg(rng)
     cfg["drop"] = rng.random() < 0.3  # a caller that does not keep earlier results (memory, and object identities, are reused)
+    if rng.random() < 0.12:
+        cfg["migrate"] = rng.choice(["alt", "all"])  # the history moves between threads (every second / every operation on a thread of its own)
     return {"scenario": "reuse", "prop": "C15", "labels": labels, "oracles": ORACLES, "cfg": cfg, "gens": ngens,
             "fs": {"files": files}, "tasks": [task]}
 
